@@ -46,8 +46,8 @@ impl Prop for C04 {
 
     fn profiles(tier: Tier) -> Vec<Profile> {
         match tier {
-            Tier::Quick => vec![prof("const", 60_000), prof("wild", 30_000), prof("huge", 42_000), prof("end", 30_000), prof("capi", 12_000)],
-            Tier::Thorough => vec![prof("const", 800_000), prof("wild", 400_000), prof("huge", 500_000), prof("end", 300_000), prof("capi", 150_000)],
+            Tier::Quick => vec![prof("const", 60_000), prof("wild", 30_000), prof("huge", 42_000), prof("end", 30_000), prof("capi", 12_000), prof("many", 2_000)],
+            Tier::Thorough => vec![prof("const", 800_000), prof("wild", 400_000), prof("huge", 500_000), prof("end", 300_000), prof("capi", 150_000), prof("many", 30_000)],
         }
     }
 
@@ -82,6 +82,15 @@ impl Prop for C04 {
                 mp.p_trans[8] = 0.5;
                 mp.p_counter = 0.6;
                 mp.p_limit = 0.5;
+            }
+            "many" => {
+                mp.max_states = 2;
+                mp.w_signal = 3;
+                mp.w_end = 2;
+                mp.p_trans = [0.3; 13];
+                mp.p_trans[12] = 0.6;
+                let hp = HistParams { max_calls: 8, max_batch: 6, ..HistParams::default() };
+                return fw_case(65..=140, &mp, &hp, true, 4);
             }
             "capi" => {
                 // the same contract at the C API, whose caller buffer is sized num_machines:
@@ -127,6 +136,9 @@ impl Prop for C04 {
         let machines = build_machines(&case.machines)
             .unwrap_or_else(|e| panic!("generator produced a machine that Machine::new rejects: {e}"));
         let n = machines.len();
+        if n > 64 {
+            obs.hit("more_than_64_machines");
+        }
         let mut run = FwRun::new(case, machines, Some(50_000_000))
             .map_err(|e| Failure { signature: "framework-new-rejects-validated-machines".into(), detail: e })?;
         let mut ended = vec![false; n];
@@ -231,7 +243,7 @@ impl Prop for C04 {
     }
 
     fn required_classes() -> Vec<&'static str> {
-        vec!["clamped_to_24h", "two_or_more_actions", "rescheduled_within_call", "event_for_ended_machine", "zero_machines", "c_api_history", "c_api_empty_batch"]
+        vec!["clamped_to_24h", "two_or_more_actions", "rescheduled_within_call", "event_for_ended_machine", "zero_machines", "c_api_history", "c_api_empty_batch", "more_than_64_machines"]
     }
 
     fn assumptions() -> Vec<&'static str> {
